@@ -101,6 +101,19 @@ Theorem c10_batches_independent :
 Proof. split; [exact batches_independent | exact api_batches_independent]. Qed.
 Print Assumptions c10_batches_independent.
 
+(* Panicking callbacks.  In the model the handlers take no result from the callbacks: a tick's batch and Drain's
+   hand-over are outputs (c10_batches_independent), so a callback that panics changes neither what was handed over
+   nor what later ticks fire.  What the run loop does share with its callbacks is the TaskRunner of drainAll
+   (drainWorkers slots; Schedule blocks the loop while all are taken): every task that ENDS gives its slot back,
+   panic or not -- the slots in use after any trace are starts - ends whatever the panic flags, and once every
+   started task has ended the next Schedule goes through.  (Link.v: Schedule releases the slot inside the deferred
+   rescue.Recover; runTasks wraps every execute in RunSafe.) *)
+Theorem c10_runner_no_leak : forall limit tr n, rrun limit tr = Some n ->
+  rrun limit (map calm tr) = Some n /\ n + ends tr = starts tr /\
+  (ends tr = starts tr -> 0 < limit -> rrun limit (tr ++ [RStart]) = Some 1).
+Proof. exact runner_no_leak. Qed.
+Print Assumptions c10_runner_no_leak.
+
 (* ---- non-vacuity ---- *)
 (* the two inputs of DESIGN section 7 D7 (N = 10, five ticks seen): `Set k 8; Move k 2` fires at the 2nd tick
    after the move and `Set k 3; Move k 17` at the 17th -- the repaired moveTask *)
@@ -135,3 +148,8 @@ Example c10_safemap_compaction_reached :
   let s := SafeMap.sm_run 2 2 [SafeMap.SPut 1 10; SafeMap.SPut 2 20; SafeMap.SChurn 100 3; SafeMap.SPut 7 70; SafeMap.SDel 1] in
   SafeMap.sm_get s 7%N = Some 70%N /\ SafeMap.sm_get s 2%N = Some 20%N /\ SafeMap.new s = [] /\ SafeMap.del_old s = 0%N.
 Proof. vm_compute. repeat split. Qed.
+
+(* 8 slots, 8 tasks started and all of them panicked: the 9th Schedule is not blocked *)
+Example c10_runner_after_8_panics :
+  rrun 8 (repeat RStart 8 ++ repeat (RFinish true) 8 ++ [RStart]) = Some 1.
+Proof. vm_compute. reflexivity. Qed.
